@@ -14,9 +14,15 @@ Cases == UNION { {[h |-> s[1], w |-> s[2], block |-> b, levels |-> lv, route |->
                     s \in {<<100, 70>>, <<33, 17>>}, b \in {0, 32}, d \in {"file", "mem"}, k \in {1, 2, 5}},
                  {[h |-> 20, w |-> 30, block |-> 32, levels |-> lv, route |-> rt, dest |-> "file", pre |-> p, overwrite |-> ow] @@ Variants[k] :
                     lv \in {"none", "l2"}, rt \in {"write_cog", "layers"}, p \in {"absent", "old"}, ow \in BOOLEAN, k \in {1, 2}} }
+\* every combination of layout, dtype, nodata, rotation, windowed writes, intermediate compression and CRS on one mid-sized image
+\* (the Variants above pin these together; here they vary independently)
+Full == {[h |-> 100, w |-> 70, block |-> 32, levels |-> lv, route |-> "write_cog", dest |-> d, pre |-> "absent", overwrite |-> FALSE,
+          layout |-> ly[1], ns |-> ly[2], dtype |-> dt, nodata |-> nd, rot |-> r, windowed |-> wn, icomp |-> ic, crs |-> cr] :
+           ly \in {<<"YX", 1>>, <<"SYX", 3>>, <<"YXS", 3>>, <<"YXS", 4>>}, dt \in {"uint8", "int16", "float32", "int8"}, nd \in {<<>>, <<7>>}, r \in BOOLEAN, wn \in BOOLEAN, ic \in BOOLEAN,
+           cr \in {"32633", "4326", "3857"}, lv \in {"l2"}, d \in {"file"}}
 VARIABLE c
 Init == c = [k |-> 0]
-Next == "k" \in DOMAIN c /\ c' \in {x \in Cases : ~(x.route = "to_cog" /\ x.dest = "file")} /\ Emit(c')
+Next == "k" \in DOMAIN c /\ c' \in {x \in Cases : ~(x.route = "to_cog" /\ x.dest = "file")} \cup Full /\ Emit(c')
 Spec == Init /\ [][Next]_c
 \* design level: block sizes the rule produces are multiples of 16 and never larger than needed
 ModelOK == "h" \in DOMAIN c => LET b == <<AdjustBlock(BlockOf(c), c.h), AdjustBlock(BlockOf(c), c.w)>> IN
